@@ -29,14 +29,14 @@ ID = 'C17'
 
 MANIFEST = dict(
     technique='explicit-state search over crash points: every write position of every reachable output-tree state is a kill point for the real parse_folder.main() (in-process fault injection at open/imwrite), up to k successive crashes, x output subsets x page-id sets; oracle = uninterrupted run',
-    text='Bounded exhaustive fault enumeration: for each configuration the state graph of output trees is explored breadth-first; in every reachable state the real tool is run with a kill injected before each of its writes (and once to completion), up to 2 (quick, 2 pages) / 3 (thorough, 3 pages incl. an empty one) successive crashes; from every reached state an uninterrupted resume must end with exactly the files of an uninterrupted run, return normally, and not re-process pages that were already complete. Configurations: all 31 non-empty subsets of {xml, render, logits, alto, lines} x 4 page-id sets (plain, dotted, containing ".xml." / ".jpg.").',
+    text='Bounded exhaustive fault enumeration: for each configuration the state graph of output trees is explored breadth-first; in every reachable state the real tool is run with a kill injected before each of its writes (and once to completion), up to 2 (quick) / 3 (thorough) successive crashes on 3 pages (one of them without lines); from every reached state an uninterrupted resume must end with exactly the files of an uninterrupted run, return normally, and not re-process pages that were already complete. Configurations: all 31 non-empty subsets of {xml, render, logits, alto, lines} x 4 page-id sets (plain, dotted, containing ".xml." / ".jpg.").',
     note='Kills happen between writes (no torn files); 2 pages; lmdb line output not covered; runs are in-process (the tool\'s own argument parsing, parser construction and write path are the real ones).',
     ref='3/C17')
 
 KINDS = ['xml', 'render', 'logits', 'alto', 'lines']
 ID_SETS = [['p1', 'p2', 'p3'], ['a', 'a.b', 'a.b.c'], ['x', 'x.xml.y', 'x.xml'], ['scan', 'scan.jpg.v2', 'scan.jpg']]
 QUICK_SUBSETS = [[0, 1, 2, 3, 4], [0], [0, 1], [0, 2], [0, 3], [0, 4], [2, 3], [4]]
-BOUNDS = {'quick': dict(crashes_full=2, crashes_other=2, pages=2), 'thorough': dict(crashes_full=3, crashes_other=3, pages=3)}
+BOUNDS = {'quick': dict(crashes_full=2, crashes_other=2, pages=3), 'thorough': dict(crashes_full=3, crashes_other=3, pages=3)}
 BOUNDS['replay'] = BOUNDS['quick']
 TMP = '/verif/.cache/tmp'
 PAGE_LINES = [[(10, 8, ['a', '_', 'b', 'ab', 'c']), (30, 20, ['ba', '_', 'bc', 'bc', 'a'])], [(12, 10, ['ab', 'ab', '_', 'ba'])], []]
